@@ -71,7 +71,7 @@ func init() {
 	prop("C15", []string{"P-COMMENT", "P-GROUPRENDER", "P-RENDERITEMS", "T-CONSTRUCTS", "P-CTOR", "P-FILERENDER-ORDER"},
 		"comment.render chooses line style only for text without a newline and block style exactly otherwise, always closes a block comment and never writes the text bare; in every multi-line group (Block, Defs, Struct, Interface, case bodies, the File itself — checked on the construct table and the constructors) a newline precedes each item and, whenever items were rendered, the close token — on every path, with no condition on separator or arity; File.Render writes headers, a blank line exactly if there are headers, package comments, the package clause, `// import %q` exactly if CanonicalPath is set. Containment then follows from Go's lexical rule that a // comment ends at the next newline.",
 		"go/format's re-flowing of comments")
-	prop("C16", []string{"P-DICT", "P-MAPRANGE@(jen.Dict)@!registration function", "P-NILGUARD@(jen.Dict)", "P-RENDERITEMS@Dict"},
+	prop("C16", []string{"P-DICT", "P-MAPRANGE@(jen.Dict)@!registration function@!two entries may share", "P-NILGUARD@(jen.Dict)", "P-RENDERITEMS@Dict"},
 		"A Dict pair is collected iff key and value are both non-nil and non-null, as an element holding its own key and value (no container keyed by rendered text); the collected slice is sorted before it is read; the emission loop writes key, colon, value of the same element and the comma-newline / leading newline exactly when there are several pairs; Dict.isNull is true iff no pair has both sides live; a Dict next to other Values items is an error.",
 		"the relative order of pairs whose keys render to the same text")
 	prop("C17", []string{"P-TAG", "P-MAPRANGE@(jen.tag)", "P-ISNULL@(jen.tag)"},
